@@ -191,7 +191,7 @@ func trunc(b []byte, n int) []byte {
 }
 
 func TestHistoriesGenerated(t *testing.T) {
-	harness.Check(t, "histories-generated", 4000, 150000, func(rt *rapid.T) {
+	harness.Check(t, "histories-generated", 4000, 100000, func(rt *rapid.T) {
 		v := rapid.SampledFrom(px.KeyVersions).Draw(rt, "version")
 		c := progs.Draw(rt, v, progs.StructuralOptions(v), 1, 4)
 		pol := progs.Policy(rt, phpgen.PolicyFull, nil)
@@ -213,7 +213,7 @@ var nsPieces = []string{
 }
 
 func TestHistoriesNamespaces(t *testing.T) {
-	harness.Check(t, "histories-namespaces", 3000, 100000, func(rt *rapid.T) {
+	harness.Check(t, "histories-namespaces", 3000, 70000, func(rt *rapid.T) {
 		v := rapid.SampledFrom([]px.Ver{px.V74, px.V74, {7, 2}, px.V56}).Draw(rt, "version")
 		var b strings.Builder
 		b.WriteString("<?php ")
@@ -227,7 +227,7 @@ func TestHistoriesNamespaces(t *testing.T) {
 }
 
 func TestHistoriesByteLevel(t *testing.T) {
-	harness.Check(t, "histories-byte-level", 4000, 150000, func(rt *rapid.T) {
+	harness.Check(t, "histories-byte-level", 4000, 100000, func(rt *rapid.T) {
 		src, class := inputs.Any(rt)
 		v := rapid.SampledFrom(px.KeyVersions).Draw(rt, "version")
 		runHistory(rt, src, v, class)
@@ -238,7 +238,7 @@ func TestHistoriesByteLevel(t *testing.T) {
 // (an observer that abbreviates, copies or re-slices a long value is where an
 // in-place write into the shared source buffer would come from).
 func TestHistoriesLongLexemes(t *testing.T) {
-	harness.Check(t, "histories-long-lexemes", 1500, 60000, func(rt *rapid.T) {
+	harness.Check(t, "histories-long-lexemes", 1500, 40000, func(rt *rapid.T) {
 		src := inputs.LongLexemes(rt)
 		v := rapid.SampledFrom(px.KeyVersions).Draw(rt, "version")
 		if r := px.Parse(append([]byte{}, src...), v, true); len(r.Errs) > 0 || r.Panic != "" {
@@ -251,7 +251,7 @@ func TestHistoriesLongLexemes(t *testing.T) {
 // TestTreesAreIndependent: two parses share no node or token object, so that
 // modifying one tree (here: formatting it) cannot change another.
 func TestTreesAreIndependent(t *testing.T) {
-	harness.Check(t, "independent-trees", 4000, 150000, func(rt *rapid.T) {
+	harness.Check(t, "independent-trees", 4000, 100000, func(rt *rapid.T) {
 		v := rapid.SampledFrom(px.KeyVersions).Draw(rt, "version")
 		c := progs.Draw(rt, v, progs.StructuralOptions(v), 1, 4)
 		src := c.G.Render(c.Root, progs.Policy(rt, phpgen.PolicySpace, nil)).Src
